@@ -492,8 +492,8 @@ let () =
                       (String.concat "" (List.map (fun n -> " " ^ qs n) r.M.r_failed));
                     List.iter (fun (n, m) ->
                         pr0 "(modelschema %s %s %s %s)\n" (q id) (qs n) (p_sattrs (M.model_schema_attrs m)) (p_atys (M.model_schema_ty m));
-                        pr0 "(class %s %s (tf_ok %s) (flat_ok %s) (rt_ok %s) (echo_class %s) (echo_class2 %s) (emb_ok %s) (tfc_ok %s) (embc_ok %s) (any_to_class %s))\n" (q id) (qs n) (b01 (M.tf_ok m)) (b01 (M.flat_ok m)) (b01 (M.rt_ok m))
-                          (b01 (M.echo_class m)) (b01 (M.echo_class2 m)) (b01 (M.emb_ok m)) (b01 (M.tfc_ok m)) (b01 (M.embc_ok m))
+                        pr0 "(class %s %s (tf_ok %s) (flat_ok %s) (rt_ok %s) (echo_class %s) (echo_class2 %s) (emb_ok %s) (tfc_ok %s) (embc_ok %s) (rte_ok %s) (any_to_class %s))\n" (q id) (qs n) (b01 (M.tf_ok m)) (b01 (M.flat_ok m)) (b01 (M.rt_ok m))
+                          (b01 (M.echo_class m)) (b01 (M.echo_class2 m)) (b01 (M.emb_ok m)) (b01 (M.tfc_ok m)) (b01 (M.embc_ok m)) (b01 (M.rte_ok m))
                           (b01 (M.tf_ok m || M.emb_ok m || M.tfc_ok m || M.embc_ok m)))
                       r.M.r_roots)
              with Parse_error e -> pr0 "(programerror %s %s)\n" (q id) (q e))
